@@ -47,6 +47,27 @@ func (c Collection) TryEqual(other Collection) (bool, bool) {
 		if okOne != okTwo {
 			return false, true
 		}
+		if !okOne {
+			// an item may itself be a collection (an environment variable accepts nested collections)
+			// or any other value that is not a FHIR element: such items are compared without asserting
+			// that they are protos.
+			left, leftIsCollection := c[i].(Collection)
+			right, rightIsCollection := other[i].(Collection)
+			if leftIsCollection || rightIsCollection {
+				if !leftIsCollection || !rightIsCollection {
+					return false, true
+				}
+				if equal, ok := left.TryEqual(right); !ok || !equal {
+					return equal, ok
+				}
+				continue
+			}
+			_, leftIsBase := c[i].(fhir.Base)
+			_, rightIsBase := other[i].(fhir.Base)
+			if !leftIsBase || !rightIsBase {
+				return false, true
+			}
+		}
 		if !okOne && !proto.Equal(c[i].(fhir.Base), other[i].(fhir.Base)) {
 			return false, true
 		}
